@@ -71,7 +71,7 @@ def gen_spec(seed, index, tier):
     rng = core.rng_of(seed, "c17")
     calcs = peers.ALL_CALCULATORS
     calc = calcs[index % len(calcs)] if rng.random() < 0.8 else rng.choice(calcs)
-    names = ["nacl_prim", "cscl", "hcp", "bct", "tric", "mono", "wurtzite", "rutile_mixed", "nacl_mixed_out", "ortho_c", "rhombo_hex", "nacl", "si", "rutile"]
+    names = ["nacl_prim", "cscl", "hcp", "bct", "tric", "mono", "wurtzite", "rutile_mixed", "nacl_mixed_out", "ortho_c", "rhombo_hex", "nacl", "si", "rutile", "perovskite"]
     w = World.generate(seed, names=names, max_atoms=rng.choice([8, 16, 16, 24]))
     faulty = index % 3 != 0
     faults = []
